@@ -409,7 +409,7 @@ impl Palette {
                 }
                 Err(err) => return Err(anyhow::anyhow!("Invalid input: {err}")),
             },
-            PaletteFormat::Ase => todo!(),
+            PaletteFormat::Ase => return Err(anyhow::anyhow!("The Adobe swatch exchange format can't be read.")),
         }
         Ok(Self {
             title,
@@ -622,15 +622,14 @@ impl Palette {
 
     pub fn from(pal: &[u8]) -> Self {
         let mut colors = Vec::new();
-        let mut o = 0;
-        while o < pal.len() {
+        // an incomplete triple at the end is no colour
+        for rgb in pal.chunks_exact(3) {
             colors.push(Color {
                 name: None,
-                r: pal[o],
-                g: pal[o + 1],
-                b: pal[o + 2],
+                r: rgb[0],
+                g: rgb[1],
+                b: rgb[2],
             });
-            o += 3;
         }
 
         Palette {
@@ -655,18 +654,15 @@ impl Palette {
 
     pub fn from_63(pal: &[u8]) -> Self {
         let mut colors = Vec::new();
-        let mut o = 0;
-        while o < pal.len() {
-            let r = pal[o];
-            let g = pal[o + 1];
-            let b = pal[o + 2];
+        // an incomplete triple at the end is no colour
+        for rgb in pal.chunks_exact(3) {
+            let (r, g, b) = (rgb[0], rgb[1], rgb[2]);
             colors.push(Color {
                 name: None,
                 r: r << 2 | r >> 4,
                 g: g << 2 | g >> 4,
                 b: b << 2 | b >> 4,
             });
-            o += 3;
         }
 
         Palette {
